@@ -55,6 +55,9 @@ def _setup(V, cfg, unit_thickness=True):
     if M.dim == 3:
         uz = V.real("uz", positive=True, default=0.75)
         pos = [ux, uy, uz]
+    elif cfg.get("thick"):
+        uz = V.real("uz", positive=True, default=0.5)     # 2-D with a free out-of-plane thickness
+        pos = [ux, uy]
     else:
         uz = V.const(1)          # unit out-of-plane thickness (element_size[2] multiplies D in 2D)
         pos = [ux, uy]
@@ -326,6 +329,11 @@ def items(tier):
             out.append(dict(kind="stress", id="stress-%s-%s" % (tag, ptag), mesh=mesh, plane=pl))
             out.append(dict(kind="energy", id="energy-%s-%s" % (tag, ptag), mesh=mesh, plane=pl))
             out.append(dict(kind="thermal", id="thermal-%s-%s" % (tag, ptag), mesh=mesh, plane=pl))
+            if M.dim == 2 and M.nel <= 2:
+                # out-of-plane thickness != 1: stresses do not depend on it, K and the thermal load are proportional to it
+                out.append(dict(kind="stress", id="stress-%s-%s-thick" % (tag, ptag), mesh=mesh, plane=pl, thick=True))
+                out.append(dict(kind="energy", id="energy-%s-%s-thick" % (tag, ptag), mesh=mesh, plane=pl, thick=True))
+                out.append(dict(kind="thermal", id="thermal-%s-%s-thick" % (tag, ptag), mesh=mesh, plane=pl, thick=True))
         for ndof in (1, 2, 3):
             out.append(dict(kind="average", id="average-%s-ndof%d" % (tag, ndof), mesh=mesh, ndof=ndof))
         shapes = [(), (2,), (2, 2)]
